@@ -338,7 +338,8 @@ class Exec(SpecMixin, ExprMixin, CallMixin, BuiltinMixin, StmtMixin):
       # locals at exit are visible to ghost specs under their own names unless shadowed
       for k_, v_ in st.env.items():
         env.setdefault('final_' + k_, v_)
-      cx = SpecCtx(env, st.heap, st.pc, self.entry_cx, self.cur_mod)
+      oldcx = SpecCtx(env, self.entry_cx.heap, st.pc, None, self.cur_mod)   # old(...) may mention result
+      cx = SpecCtx(env, st.heap, st.pc, oldcx, self.cur_mod)
       for lm in c.exit_lemmas:
         st.assume(self.spec_bool(lm, cx))
       for i, e in enumerate(c.ensures):
